@@ -173,7 +173,7 @@ example : Witness.D1.c0 = Witness.D1.s0.chainSet := by decide
     CreateValidator, a RemovePending, a valid UpdateStakingParams, the admin's SetPower (admitting a pending applicant,
     or re-weighting a live validator without D1/D3), or a RemoveValidator — by the admin or by the operator itself —
     of a live validator not re-weighted in this block whose index entry sits at its current power (no D2); with the
-    index within `MaxValidators` (no D7), no shadowing zero-power entry (no D6) and the powers within CometBFT's maximum:
+    index entries of un-jailed positive-power records within `MaxValidators` (no D7), no shadowing zero-power entry (no D6) and the powers within CometBFT's maximum:
     the run reaches its end, no block halts, CometBFT refuses no update list, and after InitChain and after every block
     CometBFT's set equals the chain's own — including the blocks in which removed validators unbond, and those in which
     their records mature and are deleted. -/
